@@ -573,6 +573,8 @@ impl BucketSegmentIter<'_> {
                 Ok(Some(record))
             }
             Ok(None) => Ok(None),
+            // The unwritten rest of a preallocated segment, as in `seglog::read::Iter`
+            Err(ReadError::Reader(seglog::read::ReadError::TruncationMarker { .. })) => Ok(None),
             Err(err) => {
                 warn!("unexpected read error at offset {}: {err}", self.offset);
                 Err(err)
